@@ -344,6 +344,14 @@ def xout_rule(rep, f):
         if not latch_arms:
             rep.ok("R-XOUT-STEP", key, "no XOut request is latched", nontrivial=False)
             continue
+        # the request can come from any call of the callback - the initial one included: every site latches it
+        sites = solout_matches(body["body"])
+        deaf = [mm for mm in sites if not any(arm_flag(a) == "XOut" and tast.find(a["body"], lambda z: z.get("k") == "Assign") for a in mm["arms"])]
+        if deaf:
+            rep.violation("R-XOUT-STEP", key + ":latch", "%d of the %d callback sites of a solver that honours XOut drop(s) the request: the point asked for there gets no interpolant"
+                          % (len(deaf), len(sites)), deaf[0].get("sp"))
+        else:
+            rep.ok("R-XOUT-STEP", key + ":latch", "all %d callback sites latch an XOut request" % len(sites))
         try:
             variants = rk.analyse_variants(f, fn)
         except rk.AnalysisError as e:
